@@ -50,6 +50,9 @@ type Contract struct {
 	Loops     map[int]*LoopSpec
 	Calls     []CallSpec
 	Preserves []PreserveSpec
+	Stores    []CallSpec // store <field> requires <expr> (newval bound)
+	Sends     []CallSpec // send <chanfield> requires <expr> (sentval bound)
+	Monitors  []MonitorSpec
 	Assumes   []Clause
 	Hints     []Clause
 	Ghosts    []GhostDecl
@@ -65,6 +68,7 @@ type Contract struct {
 
 // Def is a spec macro: //verif:def name(params) = expr
 type Def struct {
+	Owns     []string // non-empty: an ownership declaration: Name = "Type.field", Owns = functions allowed to store to it
 	GhostMap string // non-empty: a ghost map component Int -> sort
 	Name   string
 	Params []string
@@ -78,6 +82,13 @@ type PreserveSpec struct {
 	Targets []*SExpr
 	Reason  string
 	Src     string
+}
+
+// MonitorSpec: fields guarded by a mutex field of the same struct; acquiring the
+// mutex forgets what is known about them (other goroutines may have changed them).
+type MonitorSpec struct {
+	Mutex  string
+	Fields []string
 }
 
 type GhostDecl struct {
@@ -237,6 +248,15 @@ func ParseContracts(pkgPath, file string, text string) ([]*Contract, []*Def, err
 			out = append(out, cur)
 			continue
 		}
+		if kw == "owns" {
+			// owns <Type.field> : <func>, <func>
+			j := strings.Index(d.text, ":")
+			if j < 0 {
+				return nil, nil, fail(d, fmt.Errorf("owns <Type.field> : <functions>"))
+			}
+			defs = append(defs, &Def{Name: "owns:" + pkgPath + ":" + strings.TrimSpace(d.text[:j]), Owns: splitNames(d.text[j+1:]), Src: d.text})
+			continue
+		}
 		if kw == "ghostmap" {
 			f := strings.Fields(d.text)
 			if len(f) != 2 {
@@ -380,6 +400,27 @@ func ParseContracts(pkgPath, file string, text string) ([]*Contract, []*Def, err
 				return nil, nil, fail(d, err)
 			}
 			cur.Calls = append(cur.Calls, CallSpec{Sel: f[0], Cl: cl})
+		case "store", "send":
+			f := strings.SplitN(d.text, " ", 3)
+			if len(f) < 3 || f[1] != "requires" {
+				return nil, nil, fail(d, fmt.Errorf("%s <field> requires <expr>", kw))
+			}
+			cl, err := mkClause(label, f[2], d.line)
+			if err != nil {
+				return nil, nil, fail(d, err)
+			}
+			if kw == "store" {
+				cur.Stores = append(cur.Stores, CallSpec{Sel: f[0], Cl: cl})
+			} else {
+				cur.Sends = append(cur.Sends, CallSpec{Sel: f[0], Cl: cl})
+			}
+		case "monitor":
+			// monitor <mutexField> guards <f1>, <f2>
+			f := strings.SplitN(d.text, " ", 3)
+			if len(f) < 3 || f[1] != "guards" {
+				return nil, nil, fail(d, fmt.Errorf("monitor <mutexField> guards <fields>"))
+			}
+			cur.Monitors = append(cur.Monitors, MonitorSpec{Mutex: f[0], Fields: splitNames(f[2])})
 		case "call-preserves":
 			// call-preserves <sel> : <lvalues> because "reason"
 			txt := d.text
